@@ -63,17 +63,32 @@ pub fn run(args: &crate::Args) {
                     }
                 }
             }
-            let members: Vec<&str> = refs.iter().map(|s| s.as_str()).collect();
+            let members: Vec<String> = refs.clone();
             // queries: every member, and a few non-members
-            let mut queries: Vec<String> = members.iter().map(|s| s.to_string()).collect();
+            let mut queries: Vec<String> = members.clone();
             for _ in 0..2 {
                 let n = *r.pick(names);
-                if !members.contains(&n) {
+                if !members.iter().any(|m| m == n) {
                     queries.push(n.to_string());
                 }
             }
             queries.push("missing.css".into());
+            // the CSS compiled from an earlier sass file is a static like any other (`<stem>.css`): later sass
+            // files refer to it, directly after it was compiled and after other additions
+            queries.push("@prev".into());
+            let at = r.below(queries.len());
+            queries.insert(at, "@prev".into());
+            queries.push("@first".into());
+            let mut compiled: Vec<String> = Vec::new();
             for (qi, q) in queries.iter().enumerate() {
+                let q: &String = &match q.as_str() {
+                    "@prev" => compiled.last().cloned().unwrap_or_else(|| "q99.css".into()),
+                    "@first" => compiled.first().cloned().unwrap_or_else(|| "q98.css".into()),
+                    _ => q.clone(),
+                };
+                let members_owned: Vec<String> = members.iter().chain(compiled.iter()).cloned().collect();
+                let members_now: Vec<&str> = members_owned.iter().map(|s| s.as_str()).collect();
+                let members = &members_now;
                 let before: Vec<(String, String)> = st.get_names().iter().map(|(a, b)| (a.clone(), b.clone())).collect();
                 let scss = format!("a{{b:static_name(\"{q}\")}}\n");
                 let stem = format!("q{qi}");
@@ -105,6 +120,9 @@ pub fn run(args: &crate::Args) {
                     )
                     .unwrap();
                 };
+                if res.is_ok() && new_css.is_some() {
+                    compiled.push(format!("{stem}.css"));
+                }
                 match (&res, &new_css) {
                     (Ok(()), Some((_, css_url))) => {
                         // the CSS text is embedded in statics.rs only at drop time; recompute it from the
